@@ -34,6 +34,10 @@ def plan(tier):
         g = [dict(system='stp', backend=None, N=2, B=2, Wk=1, K=40)]
         for b in BACKENDS:
             g.append(dict(system='lpm', backend=b, N=2, B=2, Wk=2, K=44))
+        # one exact instantiation with three elements for the thread pool: the smallest one in which a full buffer meets out-of-order completion
+        # of two workers (n<=2 cannot show it).  The next one (buffer 3, not yet full when the third element is pulled) costs 5-7 min per query
+        # and is part of the thorough tier (n<=3, buffer<=3, workers<=3).
+        g.append(dict(system='lpm', backend='t', N=3, B=2, Wk=2, K=60, n_exact=3, B_exact=2, W_exact=2, timeout=420))
         return g
     g = [dict(system='stp', backend=None, N=3, B=3, Wk=1, K=75), dict(system='stp', backend=None, N=4, B=3, Wk=1, K=95)]
     for b in BACKENDS:
@@ -52,7 +56,8 @@ def prefix_plan(tier):
     """C07 only: read-ahead needs dataset lengths well above the buffer size.  These groups ask the invariant for every execution
     *prefix* of <= K steps with n up to 6/8 (no completeness threshold: the claim is bounded by steps, not by termination)."""
     if tier == 'quick':
-        return [dict(system='stp', backend=None, N=6, B=3, Wk=1, K=34, B_exact=b, prefix=True) for b in (1, 2, 3)]
+        return [dict(system='stp', backend=None, N=6, B=3, Wk=1, K=34, B_exact=b, prefix=True) for b in (1, 2, 3)] + \
+            [dict(system='lpm', backend='t', N=5, B=2, Wk=2, K=44, B_exact=2, W_exact=2, prefix=True, timeout=420)]
     g = [dict(system='stp', backend=None, N=8, B=4, Wk=1, K=44, B_exact=b, prefix=True) for b in (1, 2, 3, 4)]
     g += [dict(system='lpm', backend='t', N=5, B=3, Wk=2, K=44, B_exact=b, prefix=True) for b in (1, 2, 3)]
     return g
@@ -203,7 +208,7 @@ def run(pid, tier, seed, ctx, modes_for, known_carve=None, witnesses=2, extra_gr
         pre = ['readahead_tight'] if g.get('prefix') else ['threshold', 'reach']
         lostw = g['system'] == 'lpm' and g['backend'] in LOST_WORKER_BACKENDS and rt.known(KF_LOST)
         for mode in pre + list(modes_for(g)):
-            spec = dict(g, mode=mode, timeout=tmo, gi=gi)
+            spec = dict(g, mode=mode, timeout=g.get('timeout', tmo), gi=gi)
             spec.pop('prefix', None)
             if lostw:
                 spec['region'] = 'exclude_lost_worker'      # known finding KF_LOST: its region is carved out of every query ...
